@@ -401,6 +401,7 @@ ReadReturn(e) ==                                     \* k = Len(calls) + 1
             [got |-> rp.got, fault |-> rp.fault, ok |-> e.ok, isE |-> e.isE, isEOF |-> e.isEOF, hdr |-> Header(g)])
   /\ NoteIf(e.pos1 # pos, "HARNESS", "consumed count differs from the logged reads", [pos1 |-> e.pos1, pos |-> pos])
   \* verdict of the frame
+  /\ NoteIf(prog.fam = "seq" /\ v.kind = "accept" /\ ~e.ok, "C06", "a frame of the sequence was not returned by its call", [frame |-> g, pos |-> rp.start])
   /\ IF v.kind = "accept"
      THEN IF ~e.ok THEN Note("C03", "valid frame rejected", [frame |-> g, err |-> IF Has(e, "errtext") THEN e.errtext ELSE ""])
           ELSE /\ NoteIf(rt # v.pkt.t, "C03", "valid frame decoded to another packet type", [want |-> v.pkt.t, got |-> rt])
